@@ -57,8 +57,21 @@ def src_hash():
     return C.hash_files(src_files())
 
 
+def _sweep_tmp():
+    """TLC unpacks its standard modules into java.io.tmpdir (redirected below /verif/build); drop old ones."""
+    d = C.ensure_dir(TMPENV["JAVA_TOOL_OPTIONS"].split("=", 1)[1])
+    now = time.time()
+    for n in os.listdir(d):
+        p = os.path.join(d, n)
+        try:
+            if now - os.path.getmtime(p) > 3600:
+                shutil.rmtree(p, ignore_errors=True)
+        except OSError:
+            pass
+
+
 def build():
-    C.ensure_dir(TMPENV["JAVA_TOOL_OPTIONS"].split("=", 1)[1])
+    _sweep_tmp()
     lock_src = os.path.join(C.REPO, "Cargo.lock")
     with C.FileLock(os.path.join(C.BUILD, "cargo-cluster.lock")):
         lock_dst = os.path.join(HARNESS, "Cargo.lock")
@@ -697,9 +710,10 @@ def design_mc(tier):
         for n in names:
             expect, inv, _ = MC_CONFIGS[n]
             cfg = os.path.join(C.SPEC, "MC_DataPlane_%s.cfg" % n)
-            rc, out, wall = C.tlc(os.path.join(C.SPEC, "MC_DataPlane.tla"), cfg,
-                                  os.path.join(C.BUILD, "runs", "mc_dp_%s_%d" % (n, os.getpid())), workers=8, env=TMPENV,
+            wd = os.path.join(C.BUILD, "runs", "mc_dp_%s_%d" % (n, os.getpid()))
+            rc, out, wall = C.tlc(os.path.join(C.SPEC, "MC_DataPlane.tla"), cfg, wd, workers=8, env=TMPENV,
                                   extra=["-coverage", "1"], timeout=3000 if tier == "thorough" else 600, heap="12g")
+            shutil.rmtree(wd, ignore_errors=True)
             gen, dist = C.tlc_stats(out)
             violated = re.findall(r"Error: Invariant (\w+) is violated", out)
             other_err = [l for l in re.findall(r"Error: (.*)", out) if not l.startswith("Invariant") and "behavior up to" not in l]
